@@ -53,6 +53,13 @@ static const int NHN = 7, NCN = 8;
 struct Val { int vt; long i; const char *s; };
 static const Val VALS[] = {{1, 0, 0}, {1, 7, 0}, {1, -1, 0}, {1, 1700000000, 0}, {2, 0, "JWT"}, {2, 0, "at+jwt"}, {2, 0, ""}, {2, 0, "h\xc3\xa9"}, {2, 0, "none"}, {3, 1, 0}, {3, 0, 0}, {4, 0, "{\"n\":[1,2,{\"d\":null}]}"}, {4, 0, "[]"}, {4, 0, "[\"x\",1.5]"}, {1, 4102444800L, 0}, {2, 0, "HS256"}};
 static const int NVALS = 16;
+// second table, selected by bit 1 of the op's third argument (so the first table keeps its meaning in saved inputs): reals that need
+// 16-17 significant digits, the largest double, integers beyond 2^53, members of every JSON type inside objects
+static const Val VALS2[] = {{4, 0, "{\"r\":0.30000000000000004,\"p\":3.141592653589793}"}, {4, 0, "[1.7976931348623157e308,5e-324,-0.0]"}, {4, 0, "{\"t\":1736432434.1234567,\"big\":9007199254740993}"}, {4, 0, "{\"n\":null,\"b\":false,\"o\":{},\"a\":[]}"},
+                            {1, 9007199254740993L, 0}, {1, LONG_MIN, 0}, {2, 0, "\xf0\x9f\x94\x91"}, {4, 0, "[[[[[[[[\"deep\"]]]]]]]]"}};
+static const int NVALS2 = 8;
+struct BOp;
+inline const Val &val_of(int b, int c) { return (c & 2) ? VALS2[b % NVALS2] : VALS[b % NVALS]; }
 // enable_iat argument: "0 to disable, any other value to enable" (jwt.h); odd op arguments enable, with every kind of truthy value
 static const int IAT_ON[] = {1, 2, -1, 256, 7, INT_MIN, 1 << 16, 255};
 inline int iat_arg(int a) { return (a & 1) ? IAT_ON[(a >> 1) % 8] : 0; }
@@ -102,7 +109,7 @@ inline BResult apply(BExec &x, const BOp &o) {
   BResult r; jwt_builder_t *b = x.b;
   switch (o.k % B_N) {
   case B_HSET: case B_CSET: {
-    bool h = (o.k % B_N) == B_HSET; const char *n = h ? HNAMES[o.a % NHN] : CNAMES[o.a % NCN]; const Val &v = VALS[o.b % NVALS]; jwt_value_t jv;
+    bool h = (o.k % B_N) == B_HSET; const char *n = h ? HNAMES[o.a % NHN] : CNAMES[o.a % NCN]; const Val &v = val_of(o.b, o.c); jwt_value_t jv;
     switch (v.vt) { case 1: jv = val_int(n, v.i, o.c & 1); break; case 2: jv = val_str(n, v.s, o.c & 1); break; case 3: jv = val_bool(n, (int)v.i, o.c & 1); break; default: jv = val_json(n, v.s, o.c & 1); }
     r.code = h ? jwt_builder_header_set(b, &jv) : jwt_builder_claim_set(b, &jv); if ((int)jv.error != r.code) r.code = -99; break; }
   case B_HDEL: r.code = jwt_builder_header_del(b, o.a % 9 == 8 ? nullptr : HNAMES[o.a % NHN]); break;
@@ -147,7 +154,7 @@ inline GenExpect expect_generate(const BModel &m, int cb_count_next) {
 inline int model_apply(BModel &m, const BOp &o) {
   switch (o.k % B_N) {
   case B_HSET: case B_CSET: {
-    bool h = (o.k % B_N) == B_HSET; Map &mp = h ? m.headers : m.claims; const char *n = h ? HNAMES[o.a % NHN] : CNAMES[o.a % NCN]; const Val &v = VALS[o.b % NVALS];
+    bool h = (o.k % B_N) == B_HSET; Map &mp = h ? m.headers : m.claims; const char *n = h ? HNAMES[o.a % NHN] : CNAMES[o.a % NCN]; const Val &v = val_of(o.b, o.c);
     if (mp.count(n) && !(o.c & 1)) return JWT_VALUE_ERR_EXIST;
     mp[n] = val_json_model(v); return JWT_VALUE_ERR_NONE; }
   case B_HDEL: if (o.a % 9 == 8) m.headers.clear(); else m.headers.erase(HNAMES[o.a % NHN]); return 0;
@@ -165,7 +172,7 @@ inline int model_apply(BModel &m, const BOp &o) {
 inline std::string bop_str(const BOp &o) {
   std::string s = BN[o.k % B_N]; s += "(";
   switch (o.k % B_N) {
-  case B_HSET: case B_CSET: { const Val &v = VALS[o.b % NVALS]; s += std::string(((o.k % B_N) == B_HSET) ? HNAMES[o.a % NHN] : CNAMES[o.a % NCN]) + "," + (v.vt == 1 ? std::to_string(v.i) : v.vt == 3 ? (v.i ? "true" : "false") : std::string("'") + v.s + "'") + ((o.c & 1) ? ",replace" : ""); break; }
+  case B_HSET: case B_CSET: { const Val &v = val_of(o.b, o.c); s += std::string(((o.k % B_N) == B_HSET) ? HNAMES[o.a % NHN] : CNAMES[o.a % NCN]) + "," + (v.vt == 1 ? std::to_string(v.i) : v.vt == 3 ? (v.i ? "true" : "false") : std::string("'") + v.s + "'") + ((o.c & 1) ? ",replace" : ""); break; }
   case B_HDEL: s += o.a % 9 == 8 ? "NULL" : HNAMES[o.a % NHN]; break;
   case B_CDEL: s += o.a % 10 == 9 ? "NULL" : CNAMES[o.a % NCN]; break;
   case B_IAT: s += std::to_string(iat_arg(o.a)); break;
